@@ -649,16 +649,17 @@ func (l *Lexer) GetLineText(t token.Token) string {
 
 	// Find the start of the line containing the given token
 	start := tokenStart.Char
-	if t.Type == token.EOF {
-		start--
+	if start > len(l.characters) {
+		start = len(l.characters)
 	}
 	for start > 0 && l.characters[start-1] != rune('\n') {
 		start--
 	}
-	// Find the end of that line
+	// Find the end of that line. The EOF token lies on the line its position
+	// names: after a final newline that is the empty last line.
 	end := tokenStart.Char
-	if t.Type == token.EOF {
-		end--
+	if end > len(l.characters) {
+		end = len(l.characters)
 	}
 	for end < len(l.characters) && l.characters[end] != rune('\n') {
 		end++
